@@ -110,7 +110,7 @@ def _sub_names(pkg):
 def command(draw, pkg):
     subs = _sub_names(pkg)
     cmd = {"emit": draw(st.sampled_from(EMITS[:6] + EMITS)), "recursive": draw(st.booleans()),
-           "dry": draw(st.booleans()), "out": draw(st.sampled_from((0, 0, 0, 1, 2))),
+           "dry": draw(st.booleans()), "out": draw(st.sampled_from((0, 0, 0, 1, 2, 3))),
            "sa_sub": draw(st.integers(0, 3)) == 3, "bl": [], "wl": [], "fault": None,
            "restart": draw(st.integers(0, 9)) == 9, "module": None}
     if subs and draw(st.integers(0, 2)) >= 1:
@@ -215,15 +215,16 @@ def render_package(pkg):
 
 
 # the third output directory has a dot in one of its components (as ~/.cache/x, build.v2/out or a mktemp name have)
-OUT_DIRS = ("out0", "out1", "build.v2/out")
+# the fourth is named after the package itself (`-o stage/mypkg`: people mirror the package name)
+OUT_DIRS = ("out0", "out1", "build.v2/out", "stage/{pkg}")
 
 
-def _out_rel(cmd):
-    return OUT_DIRS[cmd["out"] % len(OUT_DIRS)]
+def _out_rel(cmd, pkg="mypkg"):
+    return OUT_DIRS[cmd["out"] % len(OUT_DIRS)].replace("{pkg}", pkg)
 
 
 def argv_of(plan, cmd):
-    out = "{ROOT}/" + _out_rel(cmd)
+    out = "{ROOT}/" + _out_rel(cmd, plan["pkg"]["name"])
     argv = ["exmod", "-m", cmd.get("module") or plan["pkg"]["name"], "--emit", cmd["emit"], "-o", out]
     if cmd["recursive"]:
         argv.append("-r")
@@ -290,7 +291,7 @@ def check_effects(world, cmd, out_rel, before, after, events, outcome_ok):
 def _kind_of(rel):
     if rel.startswith("src"):
         return "src"
-    if rel.startswith("out") or rel.startswith("build.v2/out"):
+    if rel.startswith("out") or rel.startswith("build.v2/out") or rel.startswith("stage/"):
         return "out"
     return "elsewhere"
 
@@ -453,6 +454,7 @@ def simulate(plan, enumerate_all=None):
     if plan.get("out_exists"):
         files["out0/keep.txt"] = "pre-existing unrelated file\n"
     files["build.v2"] = None
+    files["stage"] = None     # (the parents of nested output directories exist: creating them is not the question)
     world.write_files(files)
     src_path = world.p("src")
     sys.path.insert(0, src_path)
@@ -473,7 +475,7 @@ def simulate(plan, enumerate_all=None):
                 proc.purge(("cdd",))
                 _warm[0] = False
                 warm_up()
-            out_rel = _out_rel(cmd)
+            out_rel = _out_rel(cmd, plan["pkg"]["name"])
             op = {"cmd": "cli", "argv": argv_of(plan, cmd)}
             populated = any(p.startswith(out_rel + os.sep) and p.endswith(".py") for p in world.snapshot())
             cp = world.checkpoint()
